@@ -194,6 +194,29 @@ func c19LE(c *core.Ctx) {
 			okStore = true
 		}
 	})
+	// second written form: copy the (at most 32 trailing) magnitude bytes to the front of the buffer and reverse exactly
+	// the copied prefix in place: n := copy(out, be); slices.Reverse(out[:n])
+	if !okStore {
+		var cp *ssa.Call
+		core.Instrs(fn, func(i ssa.Instruction) {
+			if cl, ok := i.(*ssa.Call); ok {
+				if b, isB := cl.Call.Value.(*ssa.Builtin); isB && b.Name() == "copy" && strings.Contains(sx.Of(cl.Call.Args[1]).String(), "(*math/big.Int).Bytes(n)") {
+					cp = cl
+				}
+			}
+		})
+		if cp != nil {
+			core.Instrs(fn, func(i ssa.Instruction) {
+				cl, ok := i.(*ssa.Call)
+				if !ok || !strings.HasPrefix(core.CallName(cl), "slices.Reverse") {
+					return
+				}
+				if sl, isSl := cl.Call.Args[0].(*ssa.Slice); isSl && sl.Low == nil && sl.High == ssa.Value(cp) && sl.X == cp.Call.Args[0] && core.Dominates(cp, cl) {
+					okStore = true
+				}
+			})
+		}
+	}
 	okLen := false
 	for _, r := range core.Returns(fn) {
 		s := sx.Of(r.Results[0]).String()
